@@ -258,6 +258,32 @@ def gen_c03(rng, thorough=False):
                         steps.append(reply(good_reply(rng, st), unit=st["unit"]))
                     steps.append(tick(100))
                 scs.append(scenario(len(scs), steps, framing=framing, decode=rng.choice(DECODES), tag=f"c03-{style}"))
+    # exactly ONE frame per request, whatever else arrives while it is outstanding: a stale reply (the late answer to a
+    # timed-out predecessor), a reply with a future id, a partial frame
+    for style in ("future", "callback"):
+        for k in range(6 if thorough else 3):
+            steps = [cmd("enable")]
+            prev = None
+            for r in range(1, 7):
+                st = rand_request(rng, r, timeout=50, unit=1)
+                st["style"] = style
+                steps.append(st)
+                how = rng.choice(["stale", "future", "timeout-then-late", "partial", "plain"]) if prev else "plain"
+                if how == "stale":
+                    steps.append(reply(good_reply(rng, prev), unit=1, txrel=-1))
+                elif how == "future":
+                    steps.append(reply(good_reply(rng, st), unit=1, txrel=3))
+                elif how == "partial":
+                    steps += [reply(good_reply(rng, st), unit=1, hold=True), deliver(4), tick(10), deliver(0)]
+                    prev = st
+                    continue
+                elif how == "timeout-then-late":
+                    steps.append(tick(50))
+                    prev = st
+                    continue
+                steps.append(reply(good_reply(rng, st), unit=1))
+                prev = st
+            scs.append(scenario(len(scs), steps, framing="tcp", tag=f"c03-one-frame-per-request-{style}"))
     return scs
 
 
@@ -288,6 +314,32 @@ def gen_c04(rng, thorough=False):
                     st["style"] = rng.choice(["future", "callback"])
                     steps += [st, reply(pdu, unit=1), tick(100)]
                 scs.append(scenario(len(scs), steps, framing=framing, decode=rng.choice(DECODES), tag=f"c04-fc{st0['fc']}"))
+    # the genuine reply of maximum size arriving in the same segment as frames that must be skipped (foreign ids): what is
+    # delivered must still be exactly the values of the genuine reply
+    for fc, count in ((3, 125), (4, 125), (1, 2000), (2, 1999), (3, 124)):
+        for nstale in (1, 2, 5):
+            steps = [cmd("enable")]
+            for r in range(1, 4):
+                st = submit(r, fc, 1, rng.randrange(0, 60000), count, (), 100, rng.choice(["future", "callback"]))
+                for k in range(nstale):
+                    steps.append(reply(rng.choice([[fc + 128, 2], [3, 2, 0xAA, 0xAA], [6, 0, 1, 0, 2]]), unit=1, txrel=-(k + 1), hold=True))
+                steps += [st, reply(good_reply(rng, st), unit=1, hold=True), deliver(0), tick(100)]
+            scs.append(scenario(len(scs), steps, framing="tcp", tag=f"c04-max-reply-behind-{nstale}-foreign-frames"))
+    # ... and around the 16-bit wrap of the transaction id: the late reply to a timed-out request is never the result of
+    # its successor
+    for txid0 in (65533, 65535):
+        steps = [cmd("enable")]
+        prev = None
+        for r in range(1, 8):
+            st = submit(r, 3, 1, 10 * r, 2, (), 20)
+            steps.append(st)
+            if r % 2 == 1:
+                steps.append(tick(20))                                   # times out
+            else:
+                steps.append(reply([3, 4, 0xAA, 0xAA, 0xAA, r], unit=1, txrel=-1))     # late reply to the predecessor
+                steps.append(reply(good_reply(rng, st), unit=1))
+            prev = st
+        scs.append(scenario(len(scs), steps, framing="tcp", tag="c04-late-reply-near-wrap", txid0=txid0))
     return scs
 
 
@@ -866,7 +918,9 @@ def gen_c14(rng, thorough=False):
                 return [tick(1)] + noise + [tick(d - 2), tick(1)]
             return noise + ([tick(d - 1)] if d > 1 else []) + [tick(1)]
         for pattern in ("fail*8", "fail3-ok-fail3", "fail2-ok-eof-fail2", "ok-eof-ok-eof", "fail4-disable-enable-fail2",
-                        "fail2-ok-garbage-fail3", "fail3-ok-maxtimeouts-fail2"):
+                        "fail2-ok-garbage-fail3", "fail3-ok-maxtimeouts-fail2",
+                        # the sequence restarts at min after a successful connection however that connection ends
+                        "fail3-ok-disable-enable-fail3", "fail2-ok-disable-enable-ok-eof-fail2"):
             steps = [cmd("enable")]
             cur = rmin
             for tok in pattern.split("-"):
@@ -932,7 +986,7 @@ def gen_serial_c14(rng, thorough=False):
     with the state of the port for the next attempt put in place in between"""
     scs = []
     grid = [(1, 1), (1, 8), (10, 15), (100, 250), (100, 800), (1000, 60000), (3, 1000)]
-    patterns = ["FFFFFFFF", "FFFeFFF", "egeg", "FFgeF", "FFFFdFF", "FeFFeF", "eFeFFFeFF"]
+    patterns = ["FFFFFFFF", "FFFeFFF", "egeg", "FFgeF", "FFFFdFF", "FeFFeF", "eFeFFFeFF", "FFFoFFF", "FFoeF"]
     for rmin, rmax in grid:
         for pattern in patterns:
             outcomes = [c for c in pattern if c != "d"]
@@ -973,6 +1027,15 @@ def gen_serial_c14(rng, thorough=False):
                     d = cur
                     cur = min(2 * cur, rmax)
                     steps += wait(d, nxt_ok)
+                elif c == "o":
+                    # opened, used, then disabled and enabled again by the user: the next attempt is made at once
+                    cur = rmin
+                    st = rand_request(rng, k, timeout=5, unit=1)
+                    steps += [st, reply(good_reply(rng, st), unit=1), cmd("disable")]
+                    if nxt_ok != port:
+                        steps.append({"op": "port", "ok": nxt_ok})
+                        port = nxt_ok
+                    steps.append(cmd("enable"))
                 else:
                     cur = rmin
                     st = rand_request(rng, k, timeout=5, unit=1)
